@@ -52,7 +52,12 @@ Record CqSpec (c : case) : Prop := {
       in_range (ck_reserve c) (ck_types c) (cons_of (ck_cons c) (cd_uuid d)) ->
       (forall x, In x (ck_types c) -> ~ satisfies (ck_reserve c) (cons_of (ck_cons c) (cd_uuid d)) x) ->
       exists d', In d' (co_db c) /\ cd_uuid d' = cd_uuid d /\ cd_state d' = Cancelled /\
-                 cd_err d' = err_class (ck_types c)
+                 cd_err d' = err_class (ck_types c);
+  (* ... and only such a container does: the queue sends lock / runtime_status / cancel requests of its own
+     only for containers that no configured type satisfies *)
+  cs_only_unsat : forall u calls, In (u, calls) (co_calls c) ->
+      in_range (ck_reserve c) (ck_types c) (cons_of (ck_cons c) u) ->
+      forall x, In x (ck_types c) -> ~ satisfies (ck_reserve c) (cons_of (ck_cons c) u) x
 }.
 
 Definition spec_b (c : case) : bool :=
@@ -67,7 +72,10 @@ Definition spec_b (c : case) : bool :=
             in_range_b rs ts (cons_of (ck_cons c) (cd_uuid d)) &&
             forallb (fun x => negb (satisfies_b rs (cons_of (ck_cons c) (cd_uuid d)) x)) ts) ||
       existsb (fun d' => N.eqb (cd_uuid d') (cd_uuid d) && cstate_eqb (cd_state d') Cancelled &&
-                         N.eqb (cd_err d') (err_class ts)) (co_db c)) (ck_db c).
+                         N.eqb (cd_err d') (err_class ts)) (co_db c)) (ck_db c) &&
+  forallb (fun uc : N * list acall =>
+      negb (in_range_b rs ts (cons_of (ck_cons c) (fst uc))) ||
+      forallb (fun x => negb (satisfies_b rs (cons_of (ck_cons c) (fst uc)) x)) ts) (co_calls c).
 
 (* ---------------- model vs implementation ---------------- *)
 Fixpoint ins_e (x : qent) (l : list qent) : list qent :=
